@@ -48,7 +48,10 @@ def _device():
                          "e1": {"name": "B1", "label": None, "default": None, "enabled": True}}, "rule": None, "default_on": None}
     txt = {"kind": "Text", "name": "TXT", "label": None, "state": "Ok", "perm": "rw", "timeout": 0, "enabled": True,
            "elements": {"e0": {"name": "T0", "label": None, "default": "init", "enabled": True}}, "rule": None, "default_on": None}
-    return {"name": "CAM", "name_via": "class", "levels": [{"groups": {"g0": {"name": "MAIN", "enabled": True, "vectors": {"v0": blob, "v1": txt}}}}]}
+    # an upload-only BLOB property (firmware, overlay): write-only for clients
+    upl = {"kind": "BLOB", "name": "UPL", "label": None, "state": "Ok", "perm": "wo", "timeout": 0, "enabled": True,
+           "elements": {"e0": {"name": "U0", "label": None, "default": None, "enabled": True}}, "rule": None, "default_on": None}
+    return {"name": "CAM", "name_via": "class", "levels": [{"groups": {"g0": {"name": "MAIN", "enabled": True, "vectors": {"v0": blob, "v1": txt, "v2": upl}}}}]}
 
 
 def payload(seed, n, pattern):
@@ -90,9 +93,10 @@ def generate(seed, tier, index):
         up_len = rng.choice([0, 100, 1000])
     ups = []
     if rng.random() < 0.7:
-        ups.append({"op": "up_api", "len": up_len, "pattern": rng.choice(["random", "zeros", "ff"]), "format": rng.choice([".fits", "", ".bin"])})
+        ups.append({"op": "up_api", "len": up_len, "pattern": rng.choice(["random", "zeros", "ff"]), "format": rng.choice([".fits", "", ".bin"]),
+                    "vec": rng.choice(["IMG", "IMG", "UPL"])})
     if rng.random() < 0.5:
-        ups.append({"op": "up_raw", "len": up_len, "pattern": "random", "format": ".raw"})
+        ups.append({"op": "up_raw", "len": up_len, "pattern": "random", "format": ".raw", "vec": rng.choice(["IMG", "IMG", "UPL"])})
     if rng.random() < 0.25 and not big:
         ups.append({"op": "partial_down", "len": max(L, 300), "cut": rng.random()})
     if rng.random() < 0.35 and not big:
@@ -294,14 +298,18 @@ def execute(scen):
                 data = payload(scen["seed"] + 7 * L + 1, L, st["pattern"])
                 fmt = st["format"]
                 b64 = base64.b64encode(data).decode()
-                xml = f'<newBLOBVector device="CAM" name="IMG"><oneBLOB name="B0" size="{L}" format="{fmt}">{b64}</oneBLOB></newBLOBVector>\n'
+                upvec = st.get("vec", "IMG")
+                upel = "B0" if upvec == "IMG" else "U0"
+                xml = f'<newBLOBVector device="CAM" name="{upvec}"><oneBLOB name="{upel}" size="{L}" format="{fmt}">{b64}</oneBLOB></newBLOBVector>\n'
                 over = len(xml) + (22 if op == "up_api" else 0) > 2048
                 facts = {"direction": "upload", "len": L, "over_server_threshold": over, "via": op}
+                if upvec != "IMG":
+                    probes["upload_to_write_only_property"] = probes.get("upload_to_write_only_property", 0) + 1
                 ctx = f"{op} of {L} bytes ({len(xml)} chars on the wire) frag {net['frag']}"
                 if op == "up_api":
                     up_pipe = sim.net.find("cl0.ctl")[0].out
                     w0 = up_pipe.written
-                    res = apply_step(stack, {"op": "c_write", "c": 0, "dev": "CAM", "vec": "IMG", "els": [["B0", {"blob_hex": data.hex(), "format": fmt}]]})
+                    res = apply_step(stack, {"op": "c_write", "c": 0, "dev": "CAM", "vec": upvec, "els": [[upel, {"blob_hex": data.hex(), "format": fmt}]]})
                     sim.loop.step_iterations(3)  # let the send task hand the message to the transport
                     wire = up_pipe.written - w0  # what the client really put on the wire (timestamp, declaration, escaping included)
                     over = wire > 2048
@@ -320,7 +328,7 @@ def execute(scen):
                 if watchdog.S.tripped:
                     viol.append({"clause": "C08.hang", "detail": f"watchdog {watchdog.S.tripped}; {ctx}", "facts": facts})
                     break
-                got = stack.el_obj("CAM", "IMG", "B0").value
+                got = stack.el_obj("CAM", upvec, upel).value
                 if got is None or bytes(got.binary) != data or (got.format or "") != fmt:
                     viol.append({"clause": "C08.up", "detail": f"driver holds {('%d bytes' % len(got.binary)) if got is not None else None} format {getattr(got, 'format', None)!r}, uploaded {L} bytes format {fmt!r}; {ctx}", "facts": facts})
                     if not over:
